@@ -503,6 +503,17 @@ impl C2sDispatcherInner {
             // Keep the original payload
           },
           ForwardBroadcastPayloadResult::ValidWithAlteration { altered_payload: modified_payload } => {
+            // A MESSAGE cannot carry an empty payload: an alteration to nothing is not an answer this
+            // broadcast can be completed with, and routing it would fail every subscriber's connection.
+            if modified_payload.as_slice().is_empty() {
+              error!(
+                handler = self.transmitter.handler,
+                nid = nid.to_string(),
+                channel = channel_id.to_string(),
+                "payload validation returned an empty altered payload"
+              );
+              return Err(narwhal_protocol::Error::new(InternalServerError).with_id(correlation_id).into());
+            }
             altered_payload = modified_payload;
           },
           ForwardBroadcastPayloadResult::Invalid => {
